@@ -72,6 +72,15 @@ func genOp(t *rapid.T, ops []string, maxP int) arith.Case {
 	}
 	arith.FillOperands(t, &c)
 	c.Op = op
+	if op == "exp" && gen.Pick(t, 8, "bigexp") == 1 {
+		// arguments beyond the reach of Exp's series (its large-argument path has inner steps
+		// of its own), in contexts wide enough for the result, with MinExponent at or near zero
+		v := rapid.IntRange(23000, 200000).Draw(t, "bev")
+		c.X = core.Dec{Coeff: fmt.Sprint(v) + gen.Digits(t, 2, "bet"), Neg: gen.Pick(t, 3, "ben") == 0}
+		c.X.Exp = -int32(len(c.X.Coeff) - len(fmt.Sprint(v)))
+		c.Ctx.Emax = gen.Limit
+		c.Ctx.Emin = -int32([]int{0, 1, 5, 100000}[gen.Pick(t, 4, "bemin")])
+	}
 	if gen.Pick(t, 10, "sp") == 0 {
 		c.X = gen.Any(t, c.Ctx, "sx")
 	}
